@@ -482,6 +482,10 @@ func (fr *frame) unop(i *ssa.UnOp, bc string, st *state) {
 		if !fr.abstractOK("channel") {
 			e.errf("%s: channel receive outside subset", fr.fn.Name())
 		}
+		if r, ok := e.ghostRegion("recvCount"); ok {
+			// the abstraction keeps one fact about channels: a receive happened
+			e.set(st, r, app("+", e.get(st, r), "1"))
+		}
 		if i.CommaOk {
 			fr.vals[i] = "recv"
 		} else {
